@@ -31,9 +31,9 @@ static void m_put(model_t *m, int name, int v, int uniq, int top) {
 /* index of the i-th entry in lookup order */
 static int lk(const model_t *m, int i) { return FWD ? i : m->n - 1 - i; }
 
-enum { OP_PUT, OP_REMOVE, OP_REMOVEOBJ, OP_SORT, OP_CLEAR, OP_IOFAIL, OP_ALIAS };
+enum { OP_PUT, OP_REMOVE, OP_REMOVEOBJ, OP_SORT, OP_CLEAR, OP_IOFAIL, OP_ALIAS, OP_GET };
 typedef struct { int kind, k, v; const char *label; } op_t;
-static op_t OPS[96]; static int NOPS;
+static op_t OPS[128]; static int NOPS;
 static const char *op_label(int op) { return OPS[op].label; }
 static int nameid(const char *s) { for (int i = 0; i < 3; i++) if (!strcmp(NAMES[i], s)) return i; return -1; }
 static int valid(const void *d, size_t n) { for (int i = 0; i < 4; i++) if (VAL[i].n == n && !memcmp(VAL[i].b, d, n)) return i; return -1; }
@@ -220,6 +220,16 @@ static int apply(qlisttbl_t *t, model_t *m, const op_t *op, int check, const cha
             break;
         }
         case OP_CLEAR: t->clear(t); m->n = 0; break;
+        case OP_GET: {   /* a read as an operation (see sm_histories in seqmc.h): k = name, v = 0 get / 1 getmulti count */
+            int q = op->k, ev0 = -1, ec = 0;
+            for (int i = 0; i < m->n; i++) { int j = lk(m, i); if (nmatch(m->nm[j], q)) { if (!ec) ev0 = m->vl[j]; ec++; } }
+            if (op->v == 0) { size_t sz = 999; void *d = t->get(t, NAMES[q], &sz, false);
+                if (check) { if (!ec) { if (d) vc_viol("multimap:get-absent", "%s: get('%s') returned data although no entry matches", after, NAMES[q]); }
+                             else if (!d) vc_viol("multimap:get-missing", "%s: get('%s') returned NULL", after, NAMES[q]);
+                             else if (sz != VAL[ev0].n || memcmp(d, VAL[ev0].b, sz)) vc_viol("multimap:get-first-match", "%s: get('%s') is not the first match in lookup direction", after, NAMES[q]); } }
+            else { size_t n = 777; qlisttbl_data_t *mu = t->getmulti(t, NAMES[q], false, &n); if (check && (int)n != ec) vc_viol("multimap:getmulti-count", "%s: getmulti('%s') found %zu entries, %d match", after, NAMES[q], n, ec); if (mu) t->freemulti(mu); }
+            break;
+        }
     }
     return 0;
 }
@@ -230,7 +240,7 @@ static int transition(const uint16_t *hist, int d, int opi, char *ckey, int verb
     for (int i = 0; i < d; i++) { snprintf(after, sizeof after, "step %d (op %d)", i, hist[i]); apply(t, &m, &OPS[hist[i]], verbose, after); if (verbose) observe(t, &m, after); }
     vc_asan_check();   /* reports raised by the history prefix belong to the transitions that ended in those ops */
     snprintf(after, sizeof after, "op %d", opi);
-    for (int q = 0; q < 3; q++) { size_t sz = 0; void *d = t->get(t, NAMES[q], &sz, true); if (d) sm_hold(d, d, sz, "qlisttbl_get(newmem) taken before the operation"); }
+    if (!sm_hist_mode) for (int q = 0; q < 3; q++) { size_t sz = 0; void *d = t->get(t, NAMES[q], &sz, true); if (d) sm_hold(d, d, sz, "qlisttbl_get(newmem) taken before the operation"); }
     if (apply(t, &m, &OPS[opi], 1, after) == 1) { sm_release_held(); t->free(t); return 1; }
     refused_calls(t, after);
     canon(t, ckey, after);
@@ -257,6 +267,7 @@ static void setup(void) {
     OPS[NOPS++] = (op_t){OP_SORT, 0, 0, "qlisttbl_sort"};
     OPS[NOPS++] = (op_t){OP_IOFAIL, 0, 0, "qlisttbl_load"}; OPS[NOPS++] = (op_t){OP_IOFAIL, 1, 0, "qlisttbl_save"};
     OPS[NOPS++] = (op_t){OP_CLEAR, 0, 0, "qlisttbl_clear"};
+    for (int q = 0; q < 4; q++) { OPS[NOPS++] = (op_t){OP_GET, q, 0, "qlisttbl_get"}; OPS[NOPS++] = (op_t){OP_GET, q, 1, "qlisttbl_getmulti"}; }
     snprintf(SP.prefix, sizeof SP.prefix, "listtbl:%d:%d:%d:", OPT, L, NV);
     SP.nops = NOPS; SP.label = op_label; SP.transition = transition; SP.initial = initial;
 }
@@ -341,7 +352,7 @@ static int worker(int argc, char **argv) {
         }
         if (!strncmp(vc_replay_key, "listtblpair:", 12)) { for (int i = 0; i < 4; i++) NAMES[i] = PAIRNAMES[i]; sscanf(vc_replay_key, "listtblpair:%d:%n", &OPT, &off); L = 3; NV = 2; setup(); vc_case("replay", vc_replay_key); return sm_replay(&SP, vc_replay_key + off); }
         if (sscanf(vc_replay_key, "listtbl:%d:%d:%d:%n", &OPT, &L, &NV, &off) < 3) return 1;
-        setup(); vc_case("replay", vc_replay_key); return sm_replay(&SP, vc_replay_key + off);
+        setup(); if (argc >= 5 && !strcmp(argv[4], "hist")) sm_hist_mode = 1; vc_case("replay", vc_replay_key); return sm_replay(&SP, vc_replay_key + off);
     }
     if (argc < 3) return 1;
     if (!strcmp(argv[1], "pair")) { for (int i = 0; i < 4; i++) NAMES[i] = PAIRNAMES[i]; OPT = atoi(argv[2]); L = 3; NV = 2; setup(); snprintf(SP.prefix, sizeof SP.prefix, "listtblpair:%d:", OPT); sm_search(&SP, 0); return 0; }
@@ -349,6 +360,11 @@ static int worker(int argc, char **argv) {
     if (!strcmp(argv[1], "multi")) { OPT = atoi(argv[2]); L = 3; NV = 2; setup(); run_multi(); return 0; }
     OPT = atoi(argv[1]); L = atoi(argv[2]); NV = atoi(argv[3]);
     setup();
+    if (argc >= 9 && !strcmp(argv[4], "hist")) {   /* listtbl <opt> <L> <NV> hist <n> <depth> <shard> <nshards>: unmerged histories from a table of n entries */
+        int n = atoi(argv[5]); uint16_t seed[8];
+        for (int i = 0; i < n && i < 8; i++) for (int o = 0; o < NOPS; o++) if (OPS[o].kind == OP_PUT && OPS[o].k == (i * 2) % 3 && OPS[o].v == i % NV) seed[i] = (uint16_t)o;
+        return sm_histories(&SP, seed, n, atoi(argv[6]), atol(argv[7]), atol(argv[8]));
+    }
     sm_search(&SP, 0);
     vc_stat_add("saveload_roundtrips", n_saveload);
     return 0;
